@@ -225,7 +225,7 @@ def lines_agree(impl, model, ignore=()):
         diffs.append("<text>")
     return diffs
 
-def compare_streams(impl_lines, model_lines, ignore=(), skip_prefixes=("seg ", "counts", "spec ", "render", "R|", "endrender")):
+def compare_streams(impl_lines, model_lines, ignore=(), skip_prefixes=("seg ", "counts", "spec ", "render", "R|", "endrender", "tcp ")):
     """correspondence: the two output streams must agree line by line (after dropping lines only
     one side emits).  Returns list of (index, impl_line, model_line, keys)."""
     fi = [l for l in impl_lines if not l.startswith(skip_prefixes)]
